@@ -45,9 +45,15 @@ class Str:
     """string: concrete (s is a python str) or symbolic atom (sym is a z3 Int identity; supports only equality/clone).
     Concrete strings are interned to integer identities >= 0 below 2**20; symbolic atoms range over all ints, so a
     symbolic atom may equal any concrete string or none."""
-    __slots__ = ('s', 'sym')
+    __slots__ = ('s', 'sym', 'parts')
     INTERN = {}
-    def __init__(self, s=None, sym=None): self.s = s; self.sym = sym
+    def __init__(self, s=None, sym=None, num=None, parts=None):
+        # parts: for a symbolic text, what it renders: list of str | ('int', term) | ('dec', term) | Str (a symbolic atom)
+        self.s = s; self.sym = sym; self.parts = parts if parts is not None else ([num] if num is not None else None)
+    @property
+    def num(self):
+        if self.parts is not None and len(self.parts) == 1 and isinstance(self.parts[0], tuple): return self.parts[0]
+        return None
     def ident(self):
         if self.sym is not None: return self.sym
         k = Str.INTERN.get(self.s)
